@@ -31,7 +31,9 @@ TRound == IsEvent("roundGeo") /\ anchored /\ UNCHANGED envars /\ Near(Tr[l].mm, 
 \* equatorial frames: the frame origin is (a + h) (cos lon, sin lon, 0)  (logged times the longitude denominator)
 TOrigin == /\ IsEvent("origin") /\ anchored /\ UNCHANGED envars
            /\ lat = <<1, 0, 1>> => (Tr[l].exact /\ Tr[l].tq = <<(A0 + hgt) * C(lon), (A0 + hgt) * S(lon), 0>>)
-TraceNext == TReset \/ TSetAnchor \/ TResetCall \/ TToEnuGeo \/ TToEcef \/ TToEnuEcef \/ TToGeo \/ TRound \/ TOrigin
+\* a general anchor (any latitude within +-85 deg, any longitude): state machine step SetAnchor, relations by residuals
+TGeneric == /\ IsEvent("generic") /\ UNCHANGED envars /\ ResidualsOK(Tr[l])
+TraceNext == TGeneric \/ TReset \/ TSetAnchor \/ TResetCall \/ TToEnuGeo \/ TToEcef \/ TToEnuEcef \/ TToGeo \/ TRound \/ TOrigin
 TraceSpec == TraceInit /\ [][TraceNext]_tvars
 TraceAccepted == TLCGet("stats").diameter - 1 = Len(Tr)
 =============================================================================
